@@ -61,36 +61,49 @@ Definition w_start (c : wconf) : res wstate :=
   let* box := set_box (c_box c) in
   Ok (mkwstate [] 0 title (c_natoms c) (c_fmt c) None None box 0 false).
 
-Definition has_vel (r : grec) : bool := match g_vel r with Some _ => true | None => false end.
+
+Definition set_cur (st : wstate) (k : nat) : wstate :=
+  mkwstate (wf st) (wpos st) (wtitle st) (wnat st) (wfmt st) (wset st) (wbsz st) (wbox st) k
+           (wclosed st).
+Definition set_setup (st : wstate) (s : wsetup) : wstate :=
+  mkwstate (wf st) (wpos st) (wtitle st) (wnat st) (Some (s_w s, s_d s)) (Some s) (wbsz st)
+           (wbox st) (wcur st) (wclosed st).
+Definition set_bsz (st : wstate) (b : nat) : wstate :=
+  mkwstate (wf st) (wpos st) (wtitle st) (wnat st) (wfmt st) (wset st) (Some b) (wbox st)
+           (wcur st) (wclosed st).
+Definition set_nat (st : wstate) (n : Z) : wstate :=
+  mkwstate (wf st) (wpos st) (wtitle st) (Some n) (wfmt st) (wset st) (wbsz st) (wbox st)
+           (wcur st) (wclosed st).
+Definition set_closed (st : wstate) : wstate :=
+  mkwstate (wf st) (wpos st) (wtitle st) (wnat st) (wfmt st) (wset st) (wbsz st) (wbox st)
+           (wcur st) true.
 
 (* writeline on an initialised file *)
 Definition w_record (st : wstate) (s : wsetup) (r : grec) : res wstate :=
   let* line := parse_atomlist (s_w s) (s_d s) (s_vel s) r in
   let st1 := fwrite (fwrite st line) [NL] in
-  Ok (mkwstate (wf st1) (wpos st1) (wtitle st1) (wnat st1) (wfmt st1) (wset st1) (wbsz st1)
-               (wbox st1) (S (wcur st1)) (wclosed st1)).
+  Ok (set_cur st1 (S (wcur st1))).
+
+(* _setup_write_file, first part: comment line and count line *)
+Definition w_header (st : wstate) : res wstate :=
+  let title := wtitle st in
+  let* lastc := match last_opt title with None => Err EIndex | Some c => Ok c end in
+  let st1 := fwrite st title in
+  let st2 := if Ascii.eqb lastc NL then st1 else fwrite st1 [NL] in
+  Ok (match wnat st with
+      | None => fwrite st2 (repeat SP NUMBER_FIGURES ++ [NL])
+      | Some n => fwrite st2 (fmt_Z n ++ [NL])
+      end).
 
 (* _setup_write_file *)
 Definition w_setup (st : wstate) (r : grec) : res wstate :=
   let (w, d) := match wfmt st with
                 | None => (DEFAULT_POS_FIGURES, DEFAULT_POS_DECIMALS)
                 | Some f => f end in
-  let vel := has_vel r in
-  let title := wtitle st in
-  let* lastc := match last_opt title with None => Err EIndex | Some c => Ok c end in
-  let st1 := fwrite st title in
-  let st2 := if Ascii.eqb lastc NL then st1 else fwrite st1 [NL] in
-  let st3 := match wnat st with
-             | None => fwrite st2 (repeat SP NUMBER_FIGURES ++ [NL])
-             | Some n => fwrite st2 (fmt_Z n ++ [NL])
-             end in
-  let init := wpos st3 in
-  let s := mkwsetup init w d vel in
-  let st4 := mkwstate (wf st3) (wpos st3) (wtitle st3) (wnat st3) (Some (w, d)) (Some s)
-                      (wbsz st3) (wbox st3) (wcur st3) (wclosed st3) in
-  let* st5 := w_record st4 s r in
-  Ok (mkwstate (wf st5) (wpos st5) (wtitle st5) (wnat st5) (wfmt st5) (wset st5)
-               (Some (wpos st5 - init)) (wbox st5) (wcur st5) (wclosed st5)).
+  let* st3 := w_header st in
+  let s := mkwsetup (wpos st3) w d (has_vel r) in    (* _init_position = tell() *)
+  let* st5 := w_record (set_setup st3 s) s r in
+  Ok (set_bsz st5 (wpos st5 - wpos st3)).
 
 Definition w_writeline (st : wstate) (r : grec) : res wstate :=
   match wset st with
@@ -108,9 +121,7 @@ Inductive wop := OpRec (r : grec) | OpCount | OpSeek | OpBox | OpNl.
 Definition w_count (st : wstate) : res wstate :=
   match wnat st with
   | None =>
-      if wcur st =? 0 then
-        Ok (mkwstate (wf st) (wpos st) (wtitle st) (wnat st) (wfmt st) (wset st) (wbsz st)
-                     (wbox st) (wcur st) true)
+      if wcur st =? 0 then Ok (set_closed st)
       else
         match wset st with
         | None => Err EType     (* unreachable: _current_atom > 0 implies set-up *)
@@ -118,9 +129,7 @@ Definition w_count (st : wstate) : res wstate :=
             if s_init s <? 1 + NUMBER_FIGURES then Err EValue   (* negative seek *)
             else
               let st1 := fseek st (s_init s - 1 - NUMBER_FIGURES) in
-              let st2 := mkwstate (wf st1) (wpos st1) (wtitle st1) (Some (Z.of_nat (wcur st)))
-                                  (wfmt st1) (wset st1) (wbsz st1) (wbox st1) (wcur st1)
-                                  (wclosed st1) in
+              let st2 := set_nat st1 (Z.of_nat (wcur st)) in
               Ok (fwrite st2 (lpad NUMBER_FIGURES (fmt_Z (Z.of_nat (wcur st))) ++ [NL]))
         end
   | Some n => if (n =? Z.of_nat (wcur st))%Z then Ok st else Err EIO
